@@ -40,13 +40,27 @@ pub fn run(args: &[String]) -> ! {
                     Err(e) => ctx.machinery_error(e),
                 }
             }
+            None if name == "replicated-posix-group" => {
+                use crate::worlds::repl::{Cfg as RCfg, Op as ROp, Repl};
+                let cfg = RCfg { class_edits: true, replicas: 2, slots: vec![2], names: 1, disp: false, rename: false, lifecycle: true, revive: false, members: false, refresh: false, aging: false, max_repl: 2, precreate: vec![2], same_time: false, props: ["C15"].into_iter().collect(), pre_ops: vec![ROp::PosixOn(0), ROp::Repl(0, 1)], small: true };
+                let mut w = Repl::new(cfg);
+                match forkdfs::replay(&mut w, &r["case"]["trace"]) {
+                    Ok(v) => {
+                        for (k, what) in v {
+                            println!("{k}: {what}");
+                            ctx.violation(&k, &what, r["case"].clone());
+                        }
+                    }
+                    Err(e) => ctx.machinery_error(e),
+                }
+            }
             None => ctx.machinery_error(format!("replay names an unknown world `{name}`")),
         }
         ctx.finish();
     }
     let mut summary = Vec::new();
     let mut capped_any = false;
-    let budget = if ctx.quick() { 50.0 / ws.len() as f64 } else { 1500.0 / ws.len() as f64 };
+    let budget = if ctx.quick() { 40.0 / ws.len() as f64 } else { 1500.0 / ws.len() as f64 };
     for (name, cfg, depth) in &ws {
         let depth = ctx.opt_u64("depth").map(|d| d as u8).unwrap_or(*depth);
         let mut w = SchemaW::new(cfg.clone());
@@ -55,9 +69,25 @@ pub fn run(args: &[String]) -> ! {
         capped_any |= rep.capped;
         summary.push(json!({"world": name, "depth": depth, "states": rep.states, "transitions": rep.transitions, "capped": rep.capped, "requests": cfg.mods.iter().map(|m| MOD_NAMES[*m]).collect::<Vec<_>>(), "outcomes": rep.outcomes.keys().collect::<Vec<_>>() }));
     }
+    // replicated half: a POSIX group on two replicas; class edits on both sides, then merges
+    {
+        use crate::worlds::repl::{Cfg as RCfg, Op as ROp, Repl};
+        let quick = ctx.quick();
+        let rws: Vec<(&'static str, RCfg, u8)> = vec![
+            ("replicated-posix-group", RCfg { class_edits: true, replicas: 2, slots: vec![2], names: 1, disp: false, rename: false, lifecycle: !quick, revive: false, members: false, refresh: false, aging: false, max_repl: if quick { 1 } else { 2 }, precreate: vec![2], same_time: false, props: ["C15"].into_iter().collect(), pre_ops: vec![ROp::PosixOn(0), ROp::Repl(0, 1)], small: true }, if quick { 3 } else { 4 }),
+        ];
+        for (name, cfg, depth) in &rws {
+            let depth = ctx.opt_u64("depth").map(|d| d as u8).unwrap_or(*depth);
+            let mut w = Repl::new(cfg.clone());
+            let opts = Opts { depth, procs: 2, deadline_s: if quick { 25.0 } else { 600.0 }, log2_slots: 22, dedup: true, max_samples: 3, par_depth: 1 };
+            let rep = forkdfs::run_into_ctx(&mut ctx, &mut w, &opts, name);
+            capped_any |= rep.capped;
+            summary.push(json!({"world": name, "depth": depth, "replicas": 2, "states": rep.states, "transitions": rep.transitions, "capped": rep.capped, "requests": ["posix_on", "posix_off", "add_class", "replicate 0->1", "replicate 1->0"], "outcomes": rep.outcomes.keys().collect::<Vec<_>>() }));
+        }
+    }
     ctx.set("worlds", json!(summary));
     ctx.set("exhaustive", !capped_any);
     ctx.assume("the checker reads the schema in force from the server (classes: required / allowed attributes, supplements, excludes; attributes: single-valued, syntax) and applies its own validation to every live entry, shipped entries included");
-    ctx.assume("at the current domain level the schema is built from shipped migration data, so schema additions at run time are not part of the alphabet; replicated merges are not covered by this check");
+    ctx.assume("at the current domain level the schema is built from shipped migration data, so schema additions at run time are not part of the alphabet; the replicated world merges concurrent class edits of one group on two replicas and applies the same checker on both after every step and at quiescence");
     ctx.finish();
 }
